@@ -92,6 +92,13 @@ def t_share(b: float, c: float, k: float) -> float:
     return k * t_frac(b * 1.0, c) + 0.25 * t_frac(c + b, b * 2.0)
 
 
+def t_eqgate(s: float, e: float, k: float) -> float:
+    """equality and inequality tests between model quantities: they hold on some states (the checks evaluate on a lattice)"""
+    if s == e:
+        return 0.0
+    return k * (s - e) if s != 1.0 else k
+
+
 def t_local(s: float, k: float) -> float:
     a = s * s
     b = a + k
@@ -171,5 +178,5 @@ def u_exp(s: float, k: float) -> float:
     return k * math.exp(-s)
 
 
-RATES = {1: [t_const], 2: [t_ma1, t_cond, t_chain, t_elif, t_nested, t_local, t_time, t_cap], 3: [t_ma2, t_mm, t_inh, t_hill, t_nestif, t_guarded, t_share], 4: [t_rev]}
+RATES = {1: [t_const], 2: [t_ma1, t_cond, t_chain, t_elif, t_nested, t_local, t_time, t_cap], 3: [t_ma2, t_mm, t_inh, t_hill, t_nestif, t_guarded, t_share, t_eqgate], 4: [t_rev]}
 UNTRANSLATABLE = [u_loop, u_andor, u_aug, u_exp]
